@@ -780,6 +780,14 @@ package fsutil
 // seen in this (filtered) walk is forwarded as a plain file and becomes the
 // representative of its group; later members are forwarded as links to that
 // representative; directories and symlinks pass through untouched.
+// likewise the link re-canonicalisation keeps its bookkeeping per walk
+//@ func hardlinkFilter.Walk
+//@   property C11
+//@   requires r != nil
+//@   modifies heap
+//@   effects *
+//@   at call FS.Walk: link_map_new_and_empty: fresh(seenFiles) && len(seenFiles) == 0 && arg1 == target
+
 //@ func hardlinkFilter.Walk$1
 //@   property C11
 // an entry is forwarded untouched only if it is a directory or a symlink (first call site);
